@@ -220,6 +220,15 @@ StmtProds(h) ==
                      "", <<>>) : v \in {x \in Vars : VarT(x) = "u"}}
              \cup {P(Nd("Store", "n", <<>>, "", <<IntN(<<1>>)>>, <<v>>), "", <<>>) : v \in {x \in Vars : VarT(x) = "u"}}
         ELSE {})
+  \* a by-reference call inside a branch, right after a store to the variable whose only direct load is the branch condition:
+  \*   v := arg0 ; If(v).Then( f(2, ref v) )          (f: any catalogue routine with signature (value, reference))
+  \cup (IF "RefMacros" \in Stmts /\ InMain
+        THEN {LET call == Nd("Call", Sigs[r].ret, <<>>, "", <<IntN(<<2>>), Nd("Ref", "r", <<>>, "", <<>>, <<v>>)>>, <<r>>)
+                  stmt == IF Sigs[r].ret = "n" THEN call ELSE Nd("Pop", "n", <<>>, "", <<call>>, <<>>)
+              IN P(Nd("Seq", "n", <<>>, "", <<Nd("Store", "n", <<>>, "", <<ArgU(0)>>, <<v>>),
+                                              Nd("If", "n", <<>>, "", <<Nd("Load", "u", <<>>, "", <<>>, <<v>>), stmt>>, <<>>)>>, <<>>), "", <<>>)
+              : r \in {x \in 1..NR : Sigs[x].pk = <<"v", "r">>}, v \in {x \in Vars : VarT(x) = "u"}}
+        ELSE {})
   \cup {P(LogCtr(d), "", <<>>) : d \in {x \in 1..cd : "LogC" \in Stmts}}
   \cup {P(Nd("If", "n", <<>>, "", <<CtrIs1(d), Nd("Continue", "n", <<>>, "", <<>>, <<>>)>>, <<>>), "", <<>>) :
           d \in {x \in 1..cd : "ContIf" \in Stmts /\ lp > 0}}
